@@ -166,7 +166,8 @@ Definition rd_outcome (body tail : bytes) (pre : bytes) (p : pipe) (st' : rstate
     match r with
     | FPending => InFrame body st' (pre ++ consumed)
     | FFrame b => b = body /\ pre ++ consumed = frame body /\ st' = rd_init
-    | FErr e => e = IoUnexpectedEof /\ p_closed p = true /\ p_buf p' = [] /\ pre ++ consumed <> []
+    | FErr e => e = IoUnexpectedEof /\ p_closed p = true /\ p_buf p' = [] /\ pre ++ consumed <> [] /\
+                InFrame body st' (pre ++ consumed)
     | FNone => pre = [] /\ consumed = [] /\ p_buf p = [] /\ p_closed p = true
     end.
 
@@ -192,7 +193,7 @@ Proof.
   - rewrite app_assoc. exact Hr.
   - destruct Hr as (Hp & _). destruct pre; destruct c0; try discriminate. congruence.
   - rewrite app_assoc. exact Hr.
-  - destruct Hr as (He & Hcl & Hb' & Hn). rewrite app_assoc. repeat split; auto. congruence.
+  - destruct Hr as (He & Hcl & Hb' & Hn & Hi). rewrite app_assoc. repeat split; auto. congruence.
 Qed.
 
 Lemma frame_exact_poll : forall body tail, len body <= MAX_FRAME ->
@@ -253,7 +254,7 @@ Proof.
       * injection H as <- <- <-. exists []. rewrite app_nil_r. cbn. rewrite Hs. repeat split; auto.
         constructor. exact Hbig.
       * injection H as <- <- <-. destruct Hs as (Hb & Hb' & Hcl). exists []. cbn. rewrite Hb, Hb'.
-        repeat split; auto. discriminate.
+        repeat split; auto. discriminate. constructor. exact Hbig.
       * destruct Hs as (Hb & Hl1 & Hl2).
         destruct (single_of_len bs Hl1 Hl2) as [b ->].
         destruct Hag as [fut Hag]. rewrite Hb in Hag. cbn [app] in Hag.
@@ -289,7 +290,9 @@ Proof.
       * injection H as <- <- <-. exists []. rewrite app_nil_r. cbn. rewrite Hs. repeat split; auto.
         apply (IF_body body acc z); assumption.
       * injection H as <- <- <-. destruct Hs as (Hb & Hb' & Hcl). exists []. cbn. rewrite Hb, Hb'.
-        repeat split; auto. rewrite app_nil_r. unfold enc_len. destruct (len body <? 128); discriminate.
+        repeat split; auto.
+        -- rewrite app_nil_r. unfold enc_len. destruct (len body <? 128); discriminate.
+        -- rewrite app_nil_r. apply (IF_body body acc z); assumption.
       * destruct Hs as (Hb & Hl1 & Hl2).
         destruct Hag as [fut Hag]. rewrite Hb in Hag. unfold frame in Hag.
         rewrite <- !app_assoc in Hag. apply app_inv_head in Hag.
@@ -358,4 +361,36 @@ Proof.
         rewrite Hb', Hb, Ht', Ht, <- !app_assoc. repeat split; auto; congruence.
       * injection H as <- <- <-. destruct Hs as (Hb & Ht). exists []. rewrite !app_nil_r.
         repeat split; auto. discriminate.
+Qed.
+
+(* the statement pinned in Properties.v (without the InFrame conjunct of the EOF case) *)
+Lemma frame_exact_weak : forall body tail, len body <= MAX_FRAME ->
+  forall fuel st p pre st' p' r,
+  InFrame body st pre -> agrees body tail pre (p_buf p) ->
+  rd_poll fuel st p = (st', p', r) ->
+  exists consumed,
+    p_buf p = consumed ++ p_buf p' /\ p_closed p' = p_closed p /\
+    match r with
+    | FPending => InFrame body st' (pre ++ consumed)
+    | FFrame b => b = body /\ pre ++ consumed = frame body /\ st' = rd_init
+    | FErr e => e = IoUnexpectedEof /\ p_closed p = true /\ p_buf p' = [] /\ pre ++ consumed <> []
+    | FNone => pre = [] /\ consumed = [] /\ p_buf p = [] /\ p_closed p = true
+    end.
+Proof.
+  intros body tail Hm fuel st p pre st' p' r Hi Ha H.
+  destruct (frame_exact_poll body tail Hm fuel st p pre st' p' r Hi Ha H) as (cons & H1 & H2 & H3).
+  exists cons. split; [exact H1|]. split; [exact H2|].
+  destruct r; try exact H3. destruct H3 as (A & B & C & D & _). repeat split; assumption.
+Qed.
+
+(* a reader inside a frame has consumed a strict prefix of it *)
+Lemma InFrame_prefix : forall body st pre, len body <= MAX_FRAME -> InFrame body st pre ->
+  exists z, z <> [] /\ frame body = pre ++ z.
+Proof.
+  intros body st pre Hm Hi. destruct Hi as [|Hbig|acc z Hpos Hb Hz].
+  - exists (frame body). split; [|reflexivity]. unfold frame, enc_len.
+    destruct (len body <? 128); discriminate.
+  - exists (len body / 128 :: body). split; [discriminate|].
+    unfold frame. rewrite enc_len_big by exact Hbig. reflexivity.
+  - exists z. split; [exact Hz|]. unfold frame. rewrite <- app_assoc. f_equal. exact Hb.
 Qed.
